@@ -30,6 +30,7 @@ CONSTANTS
     RearmGuard,     \* TRUE: after re-arming the deadline the uplink re-checks that shutdown has not begun
     Rejected,       \* targets the router rejects: a session whose first packet names one fails to initialise
     Unresolvable,   \* domain names whose lookup fails (NXDOMAIN): the packet is dropped, the cache must not change
+    MaxFault,       \* how many times creating a session's socket fails after its client session has been created
     UpBatch,        \* TRUE: the uplink of the recvmmsg/sendmmsg path: it keeps dequeuing without blocking, packs every packet
                     \* it finds, and writes the whole batch with one sendmmsg call
     GarbageOn,      \* TRUE: clients also send datagrams that do not parse (Garbage), at any time, also as their very first
@@ -54,6 +55,8 @@ VARIABLES
     seen,       \* the client address the relay has recorded for the session (source of the last accepted packet)
     inbox,      \* replies that have arrived at the session's socket and are not read yet: Seq({"ok","big"})
     got,        \* the batch the downlink has read and is working on
+    cs,         \* the client's session object (for a SOCKS5 client: its TCP control connection): "none","open","closed"
+    nfault,
     ub,         \* batched uplink: destinations packed and not yet written, Seq([t, to])
     has,        \* this generation of the session has sent a datagram (so a reply can come back to its socket)
     sent,       \* ghost/output: datagrams that left the relay  [s, t, to]
@@ -64,7 +67,7 @@ VARIABLES
     act
 
 None == "-"
-sv == <<table, state, ch, chOpen, ipc, upc, first, cur, rip, dest, dl, sock, pk, cli, seen, inbox, got, has, sent, back, spc, rloop, nsend, nreply, ntimer, ub>>
+sv == <<table, state, ch, chOpen, ipc, upc, first, cur, rip, dest, dl, sock, pk, cli, seen, inbox, got, has, sent, back, spc, rloop, nsend, nreply, ntimer, ub, cs, nfault>>
 vars == <<sv, act>>
 
 Owner(s) == IF SharedPacker THEN "shared" ELSE s
@@ -83,6 +86,7 @@ Init ==
     /\ inbox = [s \in Sess |-> <<>>] /\ got = [s \in Sess |-> <<>>]
     /\ has = [s \in Sess |-> FALSE]
     /\ ub = [s \in Sess |-> <<>>]
+    /\ cs = [s \in Sess |-> "none"] /\ nfault = 0
     /\ sent = {} /\ back = {}
     /\ spc = "idle" /\ rloop = "run"
     /\ nsend = [s \in Sess |-> 0] /\ nreply = [s \in Sess |-> 0] /\ ntimer = 0
@@ -98,7 +102,7 @@ RecvPkt(s, t) ==
          THEN /\ IF Len(ch[s]) < ChanCap
                    THEN ch' = [ch EXCEPT ![s] = Append(@, t)] /\ act' = [n |-> "RecvPkt", s |-> s, t |-> t, out |-> "queued", from |-> cli[s]]
                    ELSE ch' = ch /\ act' = [n |-> "RecvPkt", s |-> s, t |-> t, out |-> "dropped", from |-> cli[s]]
-              /\ UNCHANGED <<ub, table, state, chOpen, ipc, upc, dl, sock, first>>
+              /\ UNCHANGED <<ub, cs, nfault, table, state, chOpen, ipc, upc, dl, sock, first>>
          ELSE /\ Gone(s)       \* (the model keeps one generation per key at a time)
               /\ table' = table \cup {s}
               /\ state' = [state EXCEPT ![s] = "nil"]
@@ -111,7 +115,8 @@ RecvPkt(s, t) ==
     /\ inbox' = (IF s \in table THEN inbox ELSE [inbox EXCEPT ![s] = <<>>])
     /\ got' = got
     /\ seen' = [seen EXCEPT ![s] = cli[s]] /\ cli' = cli
-    /\ UNCHANGED <<ub, cur, rip, dest, pk, sent, back, spc, rloop, nreply, ntimer>>
+    /\ cs' = IF s \in table THEN cs ELSE [cs EXCEPT ![s] = "none"]
+    /\ UNCHANGED <<ub, nfault, cur, rip, dest, pk, sent, back, spc, rloop, nreply, ntimer>>
 
 \* a datagram that does not parse / authenticate: nothing changes - in particular no table entry is made for its
 \* source address, and a valid datagram that follows it is treated exactly as if the garbage had never arrived
@@ -124,7 +129,7 @@ Garbage(s) ==
 Move(s) ==
     /\ Keyed = "sid" /\ cli[s] = 1
     /\ cli' = [cli EXCEPT ![s] = 2]
-    /\ UNCHANGED <<ub, table, state, ch, chOpen, ipc, upc, first, cur, rip, dest, dl, sock, pk, seen, inbox, got, has, sent, back, spc, rloop, nsend, nreply, ntimer>>
+    /\ UNCHANGED <<ub, cs, nfault, table, state, ch, chOpen, ipc, upc, first, cur, rip, dest, dl, sock, pk, seen, inbox, got, has, sent, back, spc, rloop, nsend, nreply, ntimer>>
     /\ act' = [n |-> "Move", s |-> s]
 
 \* a datagram from a foreign address that carries a live session's id but does not authenticate (forged or
@@ -139,14 +144,25 @@ InitOk(s) ==
     /\ ipc[s] = "init" /\ first[s] \notin Rejected
     /\ sock' = [sock EXCEPT ![s] = "open"] /\ dl' = [dl EXCEPT ![s] = "future"]
     /\ ipc' = [ipc EXCEPT ![s] = "swap"]
-    /\ UNCHANGED <<ub, table, state, ch, chOpen, upc, first, cur, rip, dest, pk, cli, seen, inbox, got, has, sent, back, spc, rloop, nsend, nreply, ntimer>>
+    /\ cs' = [cs EXCEPT ![s] = "open"]
+    /\ UNCHANGED <<ub, nfault, table, state, ch, chOpen, upc, first, cur, rip, dest, pk, cli, seen, inbox, got, has, sent, back, spc, rloop, nsend, nreply, ntimer>>
     /\ act' = [n |-> "InitOk", s |-> s]
 
 InitFail(s) ==
     /\ ipc[s] = "init" /\ first[s] \in Rejected
     /\ ipc' = [ipc EXCEPT ![s] = "cleanup"]
+    /\ UNCHANGED <<ub, cs, nfault, table, state, ch, chOpen, upc, first, cur, rip, dest, dl, sock, pk, cli, seen, inbox, got, has, sent, back, spc, rloop, nsend, nreply, ntimer>>
+    /\ act' = [n |-> "InitFail", s |-> s, at |-> "route"]
+
+\* I: routing and client.NewSession succeeded, creating the session's own socket fails (EMFILE, a refused socket option):
+\* the client session that already exists is closed before the goroutine gives up
+InitFailSock(s) ==
+    /\ ipc[s] = "init" /\ first[s] \notin Rejected /\ nfault < MaxFault
+    /\ nfault' = nfault + 1
+    /\ cs' = [cs EXCEPT ![s] = "closed"]
+    /\ ipc' = [ipc EXCEPT ![s] = "cleanup"]
     /\ UNCHANGED <<ub, table, state, ch, chOpen, upc, first, cur, rip, dest, dl, sock, pk, cli, seen, inbox, got, has, sent, back, spc, rloop, nsend, nreply, ntimer>>
-    /\ act' = [n |-> "InitFail", s |-> s]
+    /\ act' = [n |-> "InitFail", s |-> s, at |-> "socket"]
 
 \* I: oldState := entry.state.Swap(natConn)
 Swap(s) ==
@@ -155,13 +171,13 @@ Swap(s) ==
          THEN /\ state' = [state EXCEPT ![s] = "nat"]
               /\ upc' = [upc EXCEPT ![s] = "idle"]
               /\ ipc' = [ipc EXCEPT ![s] = "read"]
-              /\ sock' = sock
+              /\ sock' = sock /\ cs' = cs
               /\ act' = [n |-> "Swap", s |-> s, out |-> "started"]
          ELSE /\ state' = state /\ upc' = upc         \* Stop was first: close and give up
-              /\ sock' = [sock EXCEPT ![s] = "closed"]
+              /\ sock' = [sock EXCEPT ![s] = "closed"] /\ cs' = [cs EXCEPT ![s] = "closed"]
               /\ ipc' = [ipc EXCEPT ![s] = "cleanup"]
               /\ act' = [n |-> "Swap", s |-> s, out |-> "aborted"]
-    /\ UNCHANGED <<ub, table, ch, chOpen, first, cur, rip, dest, dl, pk, cli, seen, inbox, got, has, sent, back, spc, rloop, nsend, nreply, ntimer>>
+    /\ UNCHANGED <<ub, nfault, table, ch, chOpen, first, cur, rip, dest, dl, pk, cli, seen, inbox, got, has, sent, back, spc, rloop, nsend, nreply, ntimer>>
 
 \* U: queuedPacket := <-natConnSendCh
 UpDequeue(s) ==
@@ -170,21 +186,21 @@ UpDequeue(s) ==
     /\ IF Head(ch[s]) \in Domains
          THEN upc' = [upc EXCEPT ![s] = "chk"] /\ dest' = dest
          ELSE upc' = [upc EXCEPT ![s] = IF UpBatch THEN "ip" ELSE "send"] /\ dest' = [dest EXCEPT ![s] = Head(ch[s])]
-    /\ UNCHANGED <<ub, table, state, chOpen, ipc, first, rip, dl, sock, pk, cli, seen, inbox, got, has, sent, back, spc, rloop, nsend, nreply, ntimer>>
+    /\ UNCHANGED <<ub, cs, nfault, table, state, chOpen, ipc, first, rip, dl, sock, pk, cli, seen, inbox, got, has, sent, back, spc, rloop, nsend, nreply, ntimer>>
     /\ act' = [n |-> "UpDequeue", s |-> s, t |-> Head(ch[s])]
 
 \* U: the channel is closed and drained: natConn.Close(), clientSession.Close()
 UpClosed(s) ==
     /\ upc[s] = "idle" /\ ch[s] = <<>> /\ ~chOpen[s]
-    /\ upc' = [upc EXCEPT ![s] = "done"] /\ sock' = [sock EXCEPT ![s] = "closed"]
-    /\ UNCHANGED <<ub, table, state, ch, chOpen, ipc, first, cur, rip, dest, dl, pk, cli, seen, inbox, got, has, sent, back, spc, rloop, nsend, nreply, ntimer>>
+    /\ upc' = [upc EXCEPT ![s] = "done"] /\ sock' = [sock EXCEPT ![s] = "closed"] /\ cs' = [cs EXCEPT ![s] = "closed"]
+    /\ UNCHANGED <<ub, nfault, table, state, ch, chOpen, ipc, first, cur, rip, dest, dl, pk, cli, seen, inbox, got, has, sent, back, spc, rloop, nsend, nreply, ntimer>>
     /\ act' = [n |-> "UpClosed", s |-> s]
 
 \* DirectPacketClientPacker.updateDomainIPCache / PackInPlace, four steps
 PackChk(s) ==
     /\ upc[s] = "chk"
     /\ upc' = [upc EXCEPT ![s] = IF pk[Owner(s)].dom = cur[s] THEN "lod" ELSE "res"]
-    /\ UNCHANGED <<ub, table, state, ch, chOpen, ipc, first, cur, rip, dest, dl, sock, pk, cli, seen, inbox, got, has, sent, back, spc, rloop, nsend, nreply, ntimer>>
+    /\ UNCHANGED <<ub, cs, nfault, table, state, ch, chOpen, ipc, first, cur, rip, dest, dl, sock, pk, cli, seen, inbox, got, has, sent, back, spc, rloop, nsend, nreply, ntimer>>
     /\ act' = [n |-> "PackChk", s |-> s, out |-> IF pk[Owner(s)].dom = cur[s] THEN "hit" ELSE "miss"]
 \* ResolveIP(ctx, ...): the manager's context is cancelled when shutdown begins, the lookup then fails,
 \* the packet is dropped ("Failed to pack packet") and the uplink goes back to the channel without re-arming
@@ -196,16 +212,16 @@ PackRes(s) ==
               /\ act' = [n |-> "PackRes", s |-> s, out |-> "ok"]
          ELSE /\ rip' = rip /\ upc' = [upc EXCEPT ![s] = "idle"]
               /\ act' = [n |-> "PackRes", s |-> s, out |-> IF spc = "idle" THEN "failed" ELSE "cancelled"]
-    /\ UNCHANGED <<ub, table, state, ch, chOpen, ipc, first, cur, dest, dl, sock, pk, cli, seen, inbox, got, has, sent, back, spc, rloop, nsend, nreply, ntimer>>
+    /\ UNCHANGED <<ub, cs, nfault, table, state, ch, chOpen, ipc, first, cur, dest, dl, sock, pk, cli, seen, inbox, got, has, sent, back, spc, rloop, nsend, nreply, ntimer>>
 PackSto(s) ==
     /\ upc[s] = "sto"
     /\ pk' = [pk EXCEPT ![Owner(s)] = [dom |-> cur[s], ip |-> rip[s]]] /\ upc' = [upc EXCEPT ![s] = "lod"]
-    /\ UNCHANGED <<ub, table, state, ch, chOpen, ipc, first, cur, rip, dest, dl, sock, cli, seen, inbox, got, has, sent, back, spc, rloop, nsend, nreply, ntimer>>
+    /\ UNCHANGED <<ub, cs, nfault, table, state, ch, chOpen, ipc, first, cur, rip, dest, dl, sock, cli, seen, inbox, got, has, sent, back, spc, rloop, nsend, nreply, ntimer>>
     /\ act' = [n |-> "PackSto", s |-> s]
 PackLod(s) ==
     /\ ~UpBatch /\ upc[s] = "lod"
     /\ dest' = [dest EXCEPT ![s] = pk[Owner(s)].ip] /\ upc' = [upc EXCEPT ![s] = "send"]
-    /\ UNCHANGED <<ub, table, state, ch, chOpen, ipc, first, cur, rip, dl, sock, pk, cli, seen, inbox, got, has, sent, back, spc, rloop, nsend, nreply, ntimer>>
+    /\ UNCHANGED <<ub, cs, nfault, table, state, ch, chOpen, ipc, first, cur, rip, dl, sock, pk, cli, seen, inbox, got, has, sent, back, spc, rloop, nsend, nreply, ntimer>>
     /\ act' = [n |-> "PackLod", s |-> s, out |-> pk[Owner(s)].ip]
 
 \* ---- batched uplink (relayServerConnToNatConnSendmmsg): after a packet has been packed, or dropped while the batch is not
@@ -230,13 +246,13 @@ UpPack(s) ==
          /\ AfterPack(s, b)
          /\ act' = [n |-> "UpPack", s |-> s, t |-> cur[s], to |-> to, next |-> NextOf(s),
                     flush |-> IF ch[s] # <<>> THEN <<>> ELSE b]
-    /\ UNCHANGED <<table, state, chOpen, ipc, first, rip, dl, sock, pk, cli, seen, inbox, got, back, spc, rloop, nsend, nreply, ntimer>>
+    /\ UNCHANGED <<cs, nfault, table, state, chOpen, ipc, first, rip, dl, sock, pk, cli, seen, inbox, got, back, spc, rloop, nsend, nreply, ntimer>>
 PackResB(s) ==
     /\ UpBatch /\ upc[s] = "res" /\ ub[s] # <<>> /\ ~ResOk(s)
     /\ AfterPack(s, ub[s])
     /\ act' = [n |-> "PackRes", s |-> s, out |-> IF spc = "idle" THEN "failed" ELSE "cancelled", next |-> NextOf(s),
                flush |-> IF ch[s] # <<>> THEN <<>> ELSE ub[s]]
-    /\ UNCHANGED <<table, state, chOpen, ipc, first, rip, dest, dl, sock, pk, cli, seen, inbox, got, back, spc, rloop, nsend, nreply, ntimer>>
+    /\ UNCHANGED <<cs, nfault, table, state, chOpen, ipc, first, rip, dest, dl, sock, pk, cli, seen, inbox, got, back, spc, rloop, nsend, nreply, ntimer>>
 
 \* U: natConn.WriteToUDPAddrPort / WriteMsgs
 UpSend(s) ==
@@ -244,7 +260,7 @@ UpSend(s) ==
     /\ sent' = sent \cup {[s |-> s, t |-> cur[s], to |-> dest[s]]}
     /\ has' = [has EXCEPT ![s] = TRUE]
     /\ upc' = [upc EXCEPT ![s] = "rearm"]
-    /\ UNCHANGED <<ub, table, state, ch, chOpen, ipc, first, cur, rip, dest, dl, sock, pk, cli, seen, inbox, got, back, spc, rloop, nsend, nreply, ntimer>>
+    /\ UNCHANGED <<ub, cs, nfault, table, state, ch, chOpen, ipc, first, cur, rip, dest, dl, sock, pk, cli, seen, inbox, got, back, spc, rloop, nsend, nreply, ntimer>>
     /\ act' = [n |-> "UpSend", s |-> s, t |-> cur[s], to |-> dest[s]]
 
 \* U: natConn.SetReadDeadline(now + natTimeout)  [+ the guard, when present]
@@ -252,7 +268,7 @@ UpRearm(s) ==
     /\ upc[s] = "rearm"
     /\ dl' = [dl EXCEPT ![s] = IF RearmGuard /\ state[s] = "srv" THEN "past" ELSE "future"]
     /\ upc' = [upc EXCEPT ![s] = "idle"]
-    /\ UNCHANGED <<ub, table, state, ch, chOpen, ipc, first, cur, rip, dest, sock, pk, cli, seen, inbox, got, has, sent, back, spc, rloop, nsend, nreply, ntimer>>
+    /\ UNCHANGED <<ub, cs, nfault, table, state, ch, chOpen, ipc, first, cur, rip, dest, sock, pk, cli, seen, inbox, got, has, sent, back, spc, rloop, nsend, nreply, ntimer>>
     /\ act' = [n |-> "UpRearm", s |-> s]
 
 \* the target answers: a datagram arrives at the session's socket ("big": one that the server packer will refuse
@@ -261,7 +277,7 @@ TargetReply(s, k) ==
     /\ has[s] /\ sock[s] = "open" /\ nreply[s] < MaxReply
     /\ nreply' = [nreply EXCEPT ![s] = @ + 1]
     /\ inbox' = [inbox EXCEPT ![s] = Append(@, k)]
-    /\ UNCHANGED <<ub, table, state, ch, chOpen, ipc, upc, first, cur, rip, dest, dl, sock, pk, cli, seen, got, has, sent, back, spc, rloop, nsend, ntimer>>
+    /\ UNCHANGED <<ub, cs, nfault, table, state, ch, chOpen, ipc, upc, first, cur, rip, dest, dl, sock, pk, cli, seen, got, has, sent, back, spc, rloop, nsend, ntimer>>
     /\ act' = [n |-> "TargetReply", s |-> s, k |-> k]
 \* I (downlink): ReadMsgUDPAddrPort returns one datagram / ReadMsgs returns everything that has arrived
 DlRead(s) ==
@@ -269,7 +285,7 @@ DlRead(s) ==
     /\ got' = [got EXCEPT ![s] = IF Batch THEN inbox[s] ELSE <<Head(inbox[s])>>]
     /\ inbox' = [inbox EXCEPT ![s] = IF Batch THEN <<>> ELSE Tail(inbox[s])]
     /\ ipc' = [ipc EXCEPT ![s] = "reply"]
-    /\ UNCHANGED <<ub, table, state, ch, chOpen, upc, first, cur, rip, dest, dl, sock, pk, cli, seen, has, sent, back, spc, rloop, nsend, nreply, ntimer>>
+    /\ UNCHANGED <<ub, cs, nfault, table, state, ch, chOpen, upc, first, cur, rip, dest, dl, sock, pk, cli, seen, has, sent, back, spc, rloop, nsend, nreply, ntimer>>
     /\ act' = [n |-> "DlRead", s |-> s, k |-> Len(got'[s])]
 \* I (downlink): unpack, pack for the client (an oversized one is dropped), send what was packed - and only that -
 \* to the session's recorded client address
@@ -279,20 +295,20 @@ DlSendBack(s) ==
     /\ back' = IF Oks(got[s]) > 0 THEN back \cup {[s |-> s, to |-> seen[s]]} ELSE back
     /\ got' = [got EXCEPT ![s] = <<>>]
     /\ ipc' = [ipc EXCEPT ![s] = "read"]
-    /\ UNCHANGED <<ub, table, state, ch, chOpen, upc, first, cur, rip, dest, dl, sock, pk, cli, seen, inbox, has, sent, spc, rloop, nsend, nreply, ntimer>>
+    /\ UNCHANGED <<ub, cs, nfault, table, state, ch, chOpen, upc, first, cur, rip, dest, dl, sock, pk, cli, seen, inbox, has, sent, spc, rloop, nsend, nreply, ntimer>>
     /\ act' = [n |-> "DlSendBack", s |-> s, to |-> seen[s], k |-> Oks(got[s]), drop |-> Len(got[s]) - Oks(got[s])]
 \* I (downlink): the read returns os.ErrDeadlineExceeded
 DlTimeout(s) ==
     /\ ipc[s] = "read" /\ dl[s] = "past"
     /\ ipc' = [ipc EXCEPT ![s] = "cleanup"]
-    /\ UNCHANGED <<ub, table, state, ch, chOpen, upc, first, cur, rip, dest, dl, sock, pk, cli, seen, inbox, got, has, sent, back, spc, rloop, nsend, nreply, ntimer>>
+    /\ UNCHANGED <<ub, cs, nfault, table, state, ch, chOpen, upc, first, cur, rip, dest, dl, sock, pk, cli, seen, inbox, got, has, sent, back, spc, rloop, nsend, nreply, ntimer>>
     /\ act' = [n |-> "DlTimeout", s |-> s]
 
 \* the NAT timeout elapses without the uplink re-arming (only before shutdown, see StopTerminates)
 TimerFire(s) ==
     /\ spc = "idle" /\ dl[s] = "future" /\ ntimer < MaxTimer
     /\ dl' = [dl EXCEPT ![s] = "past"] /\ ntimer' = ntimer + 1
-    /\ UNCHANGED <<ub, table, state, ch, chOpen, ipc, upc, first, cur, rip, dest, sock, pk, cli, seen, inbox, got, has, sent, back, spc, rloop, nsend, nreply>>
+    /\ UNCHANGED <<ub, cs, nfault, table, state, ch, chOpen, ipc, upc, first, cur, rip, dest, sock, pk, cli, seen, inbox, got, has, sent, back, spc, rloop, nsend, nreply>>
     /\ act' = [n |-> "TimerFire", s |-> s]
 
 \* I: deferred: s.mu.Lock(); close(natConnSendCh); delete(s.table, key); s.mu.Unlock(); drain if the uplink never ran
@@ -302,19 +318,20 @@ Cleanup(s) ==
     /\ ch' = IF upc[s] = "none" THEN [ch EXCEPT ![s] = <<>>] ELSE ch
     /\ sock' = IF upc[s] = "none" /\ sock[s] = "open" THEN [sock EXCEPT ![s] = "closed"] ELSE sock
     /\ ipc' = [ipc EXCEPT ![s] = "done"]
-    /\ UNCHANGED <<ub, state, upc, first, cur, rip, dest, dl, pk, cli, seen, inbox, got, has, sent, back, spc, rloop, nsend, nreply, ntimer>>
+    /\ cs' = IF upc[s] = "none" /\ cs[s] = "open" THEN [cs EXCEPT ![s] = "closed"] ELSE cs
+    /\ UNCHANGED <<ub, nfault, state, upc, first, cur, rip, dest, dl, pk, cli, seen, inbox, got, has, sent, back, spc, rloop, nsend, nreply, ntimer>>
     /\ act' = [n |-> "Cleanup", s |-> s]
 
 \* Stop: serverConn.SetReadDeadline(past); the receive loop ends
 StopBegin ==
     /\ spc = "idle"
     /\ spc' = "waitrecv"
-    /\ UNCHANGED <<ub, table, state, ch, chOpen, ipc, upc, first, cur, rip, dest, dl, sock, pk, cli, seen, inbox, got, has, sent, back, rloop, nsend, nreply, ntimer>>
+    /\ UNCHANGED <<ub, cs, nfault, table, state, ch, chOpen, ipc, upc, first, cur, rip, dest, dl, sock, pk, cli, seen, inbox, got, has, sent, back, rloop, nsend, nreply, ntimer>>
     /\ act' = [n |-> "StopBegin"]
 RecvLoopEnd ==
     /\ spc = "waitrecv" /\ rloop = "run"
     /\ rloop' = "done"
-    /\ UNCHANGED <<ub, table, state, ch, chOpen, ipc, upc, first, cur, rip, dest, dl, sock, pk, cli, seen, inbox, got, has, sent, back, spc, nsend, nreply, ntimer>>
+    /\ UNCHANGED <<ub, cs, nfault, table, state, ch, chOpen, ipc, upc, first, cur, rip, dest, dl, sock, pk, cli, seen, inbox, got, has, sent, back, spc, nsend, nreply, ntimer>>
     /\ act' = [n |-> "RecvLoopEnd"]
 \* s.mwg.Wait() returned; under s.mu: swap every entry's state, force initialised natConns' deadline into the past
 StopSwapAll ==
@@ -322,17 +339,17 @@ StopSwapAll ==
     /\ state' = [s \in Sess |-> IF s \in table THEN "srv" ELSE state[s]]
     /\ dl' = [s \in Sess |-> IF s \in table /\ state[s] = "nat" THEN "past" ELSE dl[s]]
     /\ spc' = "waitall"
-    /\ UNCHANGED <<ub, table, ch, chOpen, ipc, upc, first, cur, rip, dest, sock, pk, cli, seen, inbox, got, has, sent, back, rloop, nsend, nreply, ntimer>>
+    /\ UNCHANGED <<ub, cs, nfault, table, ch, chOpen, ipc, upc, first, cur, rip, dest, sock, pk, cli, seen, inbox, got, has, sent, back, rloop, nsend, nreply, ntimer>>
     /\ act' = [n |-> "StopSwapAll"]
 \* s.wg.Wait() returned; listeners closed
 StopEnd ==
     /\ spc = "waitall" /\ \A s \in Sess : Gone(s)
     /\ spc' = "done"
-    /\ UNCHANGED <<ub, table, state, ch, chOpen, ipc, upc, first, cur, rip, dest, dl, sock, pk, cli, seen, inbox, got, has, sent, back, rloop, nsend, nreply, ntimer>>
+    /\ UNCHANGED <<ub, cs, nfault, table, state, ch, chOpen, ipc, upc, first, cur, rip, dest, dl, sock, pk, cli, seen, inbox, got, has, sent, back, rloop, nsend, nreply, ntimer>>
     /\ act' = [n |-> "StopEnd"]
 
 SessionStep(s) ==
-    \/ InitOk(s) \/ InitFail(s) \/ Swap(s) \/ UpDequeue(s) \/ UpClosed(s)
+    \/ InitOk(s) \/ InitFail(s) \/ InitFailSock(s) \/ Swap(s) \/ UpDequeue(s) \/ UpClosed(s)
     \/ PackChk(s) \/ PackRes(s) \/ PackResB(s) \/ PackSto(s) \/ PackLod(s) \/ UpPack(s) \/ UpSend(s) \/ UpRearm(s)
     \/ DlRead(s) \/ DlSendBack(s) \/ DlTimeout(s) \/ Cleanup(s)
 
@@ -359,10 +376,10 @@ NoSendOnClosed == \A s \in table : chOpen[s]
 \* C12: when Stop has returned nothing is left: no goroutine, no socket, empty table
 NoLeak ==
     spc = "done" => /\ table = {}
-                    /\ \A s \in Sess : Gone(s) /\ sock[s] # "open"
+                    /\ \A s \in Sess : Gone(s) /\ sock[s] # "open" /\ cs[s] # "open"
 
 \* a finished session has released its socket
-SocketReleased == \A s \in Sess : (ipc[s] = "done" /\ upc[s] \in {"none", "done"}) => sock[s] # "open"
+SocketReleased == \A s \in Sess : (ipc[s] = "done" /\ upc[s] \in {"none", "done"}) => (sock[s] # "open" /\ cs[s] # "open")
 
 \* C11: every datagram leaves towards the address of the target its own session named
 RightDestination == \A x \in sent : x.to = IpOf(x.t)
